@@ -1,6 +1,7 @@
 import PqModel.VariantLemmas
 import PqModel.VariantShredLemmas
 import PqModel.VariantLevelsLemmas
+import PqModel.VariantCursor
 
 /-!
 # C19 — variant values survive encoding
@@ -246,5 +247,61 @@ example : emit (.list (.prim .int8)) 1 1 1
      [⟨3, 1, .null⟩, ⟨4, 2, .val (.prim (.string [0x78]))⟩],
      [⟨4, 1, .typ (.int8 1#8)⟩, ⟨3, 2, .null⟩]] := by
   simp [emit, shred, shredList, emitList, matchesP, zipApp, valueCell, numLeaves]
+
+/-! ## Typed read by path (the columnar `VariantReader`): `fieldCur`/`elemsCur`/`own` MIRROR the
+    per-entry logic of `variant_column_reader.go` on logical slots; `navSpec` is the SPEC of a path
+    (`$.k`: the field of an object, `[*]`: the elements of an array) on the values written. -/
+
+/-- **C19 (typed read, any path).** Rows `vs` shredded through any well-formed schema `s`: along ANY
+    path of `Field` / `Elements` steps — names of the shredding schema or not, through typed
+    objects, typed lists, whole residual values and the leftovers of partially shredded objects —
+    the window of the cursor has one entry per entry of the path on the values written, and each
+    entry stands for the value written there (`Shows`: missing exactly where the path is missing). -/
+theorem cursor_path_shred (s : Schema) (hs : wfS s = true) (vs : List Value)
+    (hv : ∀ v ∈ vs, distinctKeys v = true) (path : List Step) :
+    All2 Shows (navPathCur path (rootWindow s vs)) (navPathSpec path (vs.map some)) :=
+  shows_path path (shows_rootWindow s hs vs hv)
+
+/-- What `Shows` gives the caller: a missing path is tagged missing; a present one is rebuilt from
+    the entry (typed objects / lists through the row reader's reconstruction of that slot) as the
+    value written, up to object field order. -/
+theorem cursor_shows_value {c : Cur} {o : Option Value} (h : Shows c o) :
+    match o with
+    | none => matCur c = .missing
+    | some v => ∃ r, matCur c = .val r ∧ canon r = canon v := by
+  cases h with
+  | missing => rfl
+  | value v => exact ⟨v, matCur_ofValue v, rfl⟩
+  | shredded m s v hs hv =>
+    obtain ⟨r, hr, hc⟩ := shredOK s hs v hv
+    exact ⟨r, by rw [matCur_own_shred, hr], hc⟩
+
+/-- The shortcut of `processVirtualField` ("no residual state in the parent window: every entry is
+    missing") is sound because residual STATE counts the leftovers of partially shredded objects as
+    well as whole residual values (`hasRes`; seeded change C19-4b counted the entries tagged
+    LocResidual only). -/
+theorem cursor_virtual_window_shortcut (k : Key) (ps : List Cur)
+    (hk : ∀ p ∈ ps, ∀ fields tfs lo, p = .typedObj fields tfs lo → lookupField k fields tfs = none) :
+    virtualFieldWindow k ps = ps.map (fieldCur k) :=
+  virtualFieldWindow_eq k ps hk
+
+/-- `m` (0x6d) is not in `exampleSchema`: it is found in the leftover of the partially shredded
+    object;
+    `z` is shredded as int8 and written as one; a name that occurs nowhere is missing. -/
+example : navPathCur [.field [0x6d]] (rootWindow exampleSchema [exampleValue]) =
+    [.resid (.prim (.binary [0, 255]))] := by
+  simp [navPathCur, navCur, rootWindow, exampleSchema, exampleValue, shred, shredFields, own, fieldCur,
+    lookupField, findField, schemaNames, navValue, ofValue]
+example : navPathCur [.field [0x7a]] (rootWindow exampleSchema [exampleValue]) =
+    [.typedPrim (.int8 0xFD#8)] := by
+  simp [navPathCur, navCur, rootWindow, exampleSchema, exampleValue, shred, shredFields, own, fieldCur,
+    lookupField, findField, schemaNames, matchesP]
+example : navPathCur [.field [0x01]] (rootWindow exampleSchema [exampleValue]) = [.missing] := by
+  simp [navPathCur, navCur, rootWindow, exampleSchema, exampleValue, shred, shredFields, own, fieldCur,
+    lookupField, findField, schemaNames, navValue]
+/-- with the count of LocResidual entries in place of the residual state the shortcut would answer
+    `missing` for the field `m` of the example -/
+example : (rootWindow exampleSchema [exampleValue]).all (fun p => !hasRes p) = false := by
+  simp [rootWindow, exampleSchema, exampleValue, shred, shredFields, own, hasRes, schemaNames, findField]
 
 end PqModel.Variant
